@@ -700,8 +700,14 @@ class ExecutionState:
                 overflow_op = self._overflow_queue.get_nowait()
                 op_size = self._calculate_operation_size(overflow_op)
 
-                if total_size + op_size > self._batcher_config.max_batch_size_bytes:
-                    # Put back and stop
+                if (
+                    batch
+                    and total_size + op_size
+                    > self._batcher_config.max_batch_size_bytes
+                ):
+                    # Put back and stop. Never put back into an empty batch: an operation that
+                    # alone exceeds the size limit must be sent on its own, otherwise it would be
+                    # put back forever while later operations overtake it.
                     self._overflow_queue.put(overflow_op)
                     break
 
